@@ -24,17 +24,21 @@ from props import c03 as P3
 PROPERTY = "C13"
 RULE = ("Editing blocks: generated mesh (surfaces: 15 base shapes x face deletions/merges/splits, tri/quad/mixed/polygon, closed or "
         "bordered, relabelled; tet meshes: fans, Kuhn grids, Delaunay, 1-4 splits, all orientation parities; polylines: paths, "
-        "cycles, trees, graphs) x connectivity queried beforehand or not x a generated sequence of 1-4 operations with arguments "
-        "reduced modulo what exists; the editor state is observed after every operation and compared with a harness-side "
-        "refinement of the previously observed state; after the block the result and the object passed in are validated and "
-        "swept with the C01/C03 reference-connectivity battery. non-trivial = the mesh has a non-triangular face or a border "
-        "(surfaces) / an interior face (volumes) / >=2 edges (polylines), or the block has >=2 operations; distinct = distinct "
-        "(mesh, pre-query list, operation list).")
+        "cycles, trees, graphs; coordinates uniformly scaled by 1e-6..1e6 or integer-typed) x connectivity queried beforehand: "
+        "nothing / 1-4 single queries (half of the time all of the kind that fills one particular lazily built table) / everything "
+        "x a generated sequence of 1-4 operations with arguments reduced modulo what exists x optionally a second editing block on "
+        "the same object (the result or the object passed in) after a full sweep, a few single queries or no query; polylines are "
+        "queried (nothing / single kinds / everything) between consecutive splits as well. The editor state is observed after every "
+        "operation and compared with a harness-side refinement of the previously observed state; after each block the result and the "
+        "object passed in are validated and swept with the C01/C03 reference-connectivity battery. non-trivial = the mesh has a "
+        "non-triangular face or a border (surfaces) / an interior face (volumes) / >=2 edges (polylines), or >=2 operations or a second "
+        "block; distinct = distinct (mesh, pre-query list, operation lists).")
 ASSUMPTIONS = ["inputs are oriented manifold surfaces / conforming tetrahedral meshes / simple graphs as produced by vlib generators",
                "area is compared only when every non-triangular input face is planar and convex (otherwise 'area' depends on the triangulation)",
                "new vertices are identified by position; cases in which two expected new vertices coincide (1e-6 rel.) skip the face-by-face comparison",
                "which diagonal splits a quad and how an n-gon (n>=5) is triangulated is left open (validity predicate)",
-               "faces / cells not touched by a single-element operation keep their index (in-repo callers rely on it)"]
+               "faces / cells not touched by a single-element operation keep their index (in-repo callers rely on it)",
+               "all position tolerances are relative to the largest coordinate magnitude of the case (1e-9; 1e-12 for polyline midpoints)"]
 
 MAX_FACES = 450        # operations whose result would exceed this many faces are skipped (counted as label)
 SWEEP_CAP = 80         # per query kind, at most this many elements are swept on large results
